@@ -994,6 +994,40 @@ func (e *xexec) exec1(st *state, in instr, stack map[int64]val, check bool) {
 			}
 			st.g[dst] = val{nil, term.ZExt(term.Extract(v.t, size-1, 0), 64)}
 		}
+	case "MOVL", "MOVB":
+		// 32-bit moves zero the upper half of the destination; 8-bit moves keep it
+		w := 32
+		if in.op == "MOVB" {
+			w = 8
+		}
+		src, dst := a[0], a[1]
+		var v *term.T
+		switch {
+		case strings.HasPrefix(src, "$"):
+			iv, _ := parseImm(src)
+			v = term.Extract(c64(iv), w-1, 0)
+		case strings.Contains(src, "(SP)"):
+			panic(in.op + " from the stack not expected: " + what)
+		case strings.Contains(src, "("):
+			mo, _ := parseMem(src)
+			ad, _ := e.addr(st, mo)
+			v = le(e.loadBytes(st, ad, w/8, check, what))
+		default:
+			g := gpr(src)
+			if g.r != nil {
+				panic(in.op + " of a pointer")
+			}
+			v = term.Extract(g.t, w-1, 0)
+		}
+		if mo, ok := parseMem(dst); ok {
+			ad, _ := e.addr(st, mo)
+			e.storeBytes(st, ad, bytesOf(v), check, what)
+		} else if w == 32 {
+			st.g[dst] = val{nil, term.ZExt(v, 64)}
+		} else {
+			old := gpr(dst)
+			st.g[dst] = val{nil, term.Concat(term.Extract(old.t, 63, w), v)}
+		}
 	case "MOVW":
 		src, dst := a[0], a[1]
 		v := gpr(src)
